@@ -29,13 +29,23 @@ def run(repo, chk):
     chk.rule('C14.W1', 'word-size non-interference: non-homomorphic folds (/ % < <= > >= == != and byte/bool casts) must take the word size as input')
     chk.rule('C14.W2', 'literal narrowing: compile-time int->byte keeps only the low byte, int->bool is non-zero, as the run-time casts do')
     from . import c09, c02, c16, c05
-    c09.run(repo, Remap(chk, {'C09.M1': 'C14.F1'}))
+    chk.rule('C14.W3', 'run-time narrowing agrees with compile-time narrowing for every consumer: the value an `is byte` cast '
+                       'hands on (including its fast value) is the low byte, as the folded literal is - shared with C09.M4')
+    c09.run(repo, Remap(chk, {'C09.M1': 'C14.F1', 'C09.M4': 'C14.W3'}))
     c02.run(repo, Remap(chk, {'C02.T6': 'C14.F2'}))
     chk.rule('C14.F4', 'constant conditions: a loop whose condition folds to a constant is treated exactly like the run-time loop '
                        '(only a literally-true condition without break never completes) - shared with C16.E1/E2')
     c16.run(repo, Remap(chk, {'C16.E1': 'C14.F4', 'C16.E2': 'C14.F4'}))
     chk.rule('C14.F5', 'a constant operand never removes a run-time check: x / <constant> keeps the division guard - shared with C05.G4')
     c05.run(repo, Remap(chk, {'C05.G4': 'C14.F5'}))
+    chk.rule('C14.F6', 'constant arms of the condition lowerings (truth_is_defeat / bool_expr_branch on a folded BoolValue) use the '
+                       'same averting form and the same defeat target as their run-time arms - shared with C03.J1/J2')
+    if chk.__class__.__name__ == 'Check':
+        from . import c03
+
+        def cond_lowering(construct):
+            return 'C14.F6' if construct.startswith(('truth_is_defeat::', 'bool_expr_branch::')) else None
+        c03.run(repo, Remap(chk, {'C03.J1': cond_lowering, 'C03.J2': cond_lowering}))
     it = Interp(repo)
     ns = it.load('hidc/ast/__init__.py')
     lex = it.load('hidc/lexer/__init__.py')
@@ -88,6 +98,8 @@ def run(repo, chk):
         kept = C(span, dyn, IV(0, span)).simplify()
         chk.expect(err is not None and not isinstance(kept, IV), 'C14.F2', f'{cls} by constant zero',
                    'constant/0 is a compile error (it would fault at run time); x/0 with run-time x must be left to the run-time check', OPERATORS)
+
+    _effects_kept(chk, ns, span)
 
     # ---------------- W2 literal casts ---------------------------------------------------
     bad = []
@@ -157,3 +169,89 @@ def run(repo, chk):
                '`40000 > 0` folds to true but is false at run time, `(32767+1)/2` folds to 16384 but is -16384 at run time',
                OPERATORS)
     chk.not_decided = ['agreement of folded and run-time values in general (needs the VM semantics)']
+
+
+def _contains(obj, target, depth=0):
+    """Does the (interpreted dataclass) tree `obj` contain `target` by identity?"""
+    if obj is target:
+        return True
+    if depth > 12:
+        return False
+    if isinstance(obj, (tuple, list)):
+        return any(_contains(x, target, depth + 1) for x in obj)
+    d = getattr(obj, '__dict__', None)
+    if d and not isinstance(obj, type):
+        return any(_contains(v, target, depth + 1) for v in d.values())
+    return False
+
+
+def _effects_kept(chk, ns, span):
+    """F7: compile-time evaluation never deletes an operand that has effects.
+
+    For every operator class registered in binary_ops / unary_ops (and ??), every position, every effectful
+    operand shape (a call, and calls nested at depth 1-2 under the casts and operators the typechecker itself
+    inserts) and every constant partner value, the simplified node must still contain the effectful operand."""
+    chk.rule('C14.F7', 'folding never deletes effects: simplify() of any operator with a call-containing operand (at any depth) and '
+                       'any constant partner still contains that operand; casts of such operands keep them')
+    DT = ns['DataType']
+    IV, BV = ns['IntValue'], ns['BoolValue']
+    FC, Ident = ns['FuncCall'], ns['Ident']
+    ops = ns['operators'] if 'operators' in ns else None
+    binary = dict(ns.get('binary_ops') or getattr(ops, 'binary_ops', {}))
+    unary = dict(ns.get('unary_ops') or getattr(ops, 'unary_ops', {}))
+    if not binary or not unary:
+        raise AnalysisError('operator registries binary_ops / unary_ops not found')
+    classes = {c.__name__: c for c in list(binary.values()) + list(unary.values())}
+    if 'Speculation' in ns:
+        classes['Speculation'] = ns['Speculation']
+    logical = {n for n, c in classes.items() if issubclass(c, ns['LogicalOp'])} if 'LogicalOp' in ns else {'And', 'Or', 'Not'}
+
+    def effectful(kind):
+        ci = FC(Ident('f'), (), span, DT.INT)
+        cb = FC(Ident('g'), (), span, DT.BOOL)
+        shapes_int = [ci, classes['Neg'](span, ci), classes['Add'](span, ci, IV(1, span)), classes['Mul'](span, IV(0, span), ci)]
+        shapes_bool = [cb, classes['Not'](span, cb), ns['IntToBool'](ci), classes['Lt'](span, ci, IV(1, span)),
+                       classes['Not'](span, ns['IntToBool'](ci)), classes['And'](span, BV(True, span), cb)]
+        return shapes_bool if kind == 'bool' else shapes_int
+
+    consts = {'bool': [BV(False, span), BV(True, span)],
+              'int': [IV(v, span) for v in (0, 1, -1, 2, 255, 256)]}
+    n = 0
+    for name, C in sorted(classes.items()):
+        kind = 'bool' if name in logical else 'int'
+        is_unary = C in unary.values() and name not in ('Speculation',)
+        bad = None
+        for E in effectful(kind):
+            if is_unary:
+                trials = [((E,), 'operand')]
+            else:
+                trials = [((E, c), f'left, right={c.data!r}') for c in consts[kind]] + \
+                         [((c, E), f'right, left={c.data!r}') for c in consts[kind]] + [((E, E), 'both')]
+            for args, where in trials:
+                try:
+                    r = C(span, *args).simplify()
+                except ns['TypeCheckError']:
+                    continue          # rejecting is not deleting
+                n += 1
+                if not _contains(r, E):
+                    bad = f'{name}({where}) with effectful operand {type(E).__name__} simplifies to {type(r).__name__}: the call is deleted'
+                    break
+            if bad:
+                break
+        chk.expect(bad is None, 'C14.F7', f'{name}.simplify keeps effectful operands', bad or '', OPERATORS)
+    # casts the typechecker applies to operands
+    for T in (DT.BOOL, DT.INT, DT.BYTE):
+        bad = None
+        for kind in ('int', 'bool'):
+            for E in effectful(kind):
+                try:
+                    r = E.cast(T)
+                except Exception as ex:      # noqa: BLE001 - an unsupported cast is a rejection, not a deletion
+                    if type(ex).__name__ in ('TypeCheckError', 'InternalCompilerError', 'AssertionError'):
+                        continue
+                    raise
+                n += 1
+                if not _contains(r, E):
+                    bad = f'{type(E).__name__}.cast({T}) gives {type(r).__name__} without the operand'
+        chk.expect(bad is None, 'C14.F7', f'cast to {T} keeps effectful operands', bad or '', 'hidc/ast/expressions.py')
+    chk.floor('effect-preservation trials', n, 300)
